@@ -27,7 +27,7 @@ theorem run_ret_errv (b : Backend) (env : Env) (h : (runProg b env).mode = .ret)
   unfold runProg approveOrCompareBody at *
   rw [exec_seq, exec_op, exec_seq, exec_scope, exec_seq, exec_op, exec_seq, exec_op, exec_seq, exec_seq] at h
   rw [exec_seq, exec_op, exec_seq, exec_scope, exec_seq, exec_op, exec_seq, exec_op, exec_seq, exec_seq]
-  generalize hX : exec (.ite .isCompare "isCompare" (.call "compare" ["_"] (compareBody b))
+  generalize hX : exec (.ite .isCompare "$p1" (.call "compare" ["_"] (compareBody b))
       (.call "approve" ["_"] (approveBody b))) env ({} : St) = sX at h ⊢
   have hXr : sX.mode ≠ .ret := by
     rw [← hX]
